@@ -41,14 +41,11 @@ def run(tier):
     d = outdir(PID)
     trace = os.path.join(d, "trace-%s.ndjson" % tier)
     rc, so, se = run_harness(exe, [trace, tier, str(seed())], timeout=900)
-    if rc != 0:
-        with open(trace, "a") as f:
-            f.write("\n" + json.dumps({"e": "Crash", "rc": rc, "stderr": se[-1500:]}) + "\n")
+    lines = sanitize_trace(trace, rc, se)
     ok, res = validate_trace("TraceSafeInt", "TraceSafeInt.cfg", trace, cwd=os.path.join(SPECS, "core"), xmx="12g")
     done = printed_json(res, "DONE")
     if len(done) != 1:
         raise Broken("TraceSafeInt did not reach the end of the trace\n" + res.out[-2000:])
-    lines = [json.loads(x) for x in open(trace) if x.strip()]
     if done[0]["n"] != len(lines):
         raise Broken("line count mismatch %s vs %s" % (done[0]["n"], len(lines)))
     v = Verdict(PID)
